@@ -398,9 +398,16 @@ class Pool(Plugin):
     def generate(self, tier, rng):
         n = self.n_quick if tier == "quick" else self.n_thorough
         cases = [self.gen_case(rng, tier) for _ in range(n)]
-        return cases, {"rule": f"{n} seeded random histories (6-45 ops + drain + probe) over 1-3 origins from a table of 7 "
-                               "URIs differing in scheme/port/host/case, h1/h2 mixed, dial outcomes ok/alpn/connect-error/"
-                               "handshake-error, cancels, peer closes, upgrades, background runs; ~5% timed cases with real sleeps",
+        kinds = {"timed": sum(1 for c in cases if any(o[0] == "T" for o in c["ops"])),
+                 "drained": sum(1 for c in cases if c.get("drained"))}
+        return cases, {"rule": f"{n} seeded histories from four generators: uniform random histories (6-45 ops, 5 weight profiles: "
+                               "default / peers close a lot / many cancels / issue bursts / release-heavy, with close / cancel / "
+                               "re-issue injected into the window between an Issue and its first poll), phase-structured histories "
+                               "(bursts served, partial releases + hand-back, ticks, peer closes, newcomers), timed 'aging' histories "
+                               f"(real sleeps: {TICK_MS} ms ticks vs a {TIMEOUT_MS} ms idle timeout; {kinds['timed']} timed cases) and perturbed interleaving "
+                               "templates (pre-empted owner, pop window, push-back, failing owner, refill at the idle limit); 1-3 origins "
+                               "from a table of 7 URIs differing in scheme/port/host/case + one without scheme, h1/h2/ALPN mixed, dial "
+                               f"outcomes ok/alpn/connect-error/handshake-error; {kinds['drained']} cases end with the closing procedure + probe",
                        "exhaustive": False}
 
     def impl_line(self, c):
@@ -547,21 +554,21 @@ class PoolDev(Pool):
 
 RULES = {
     "C02": ("at every hand-off of a non-multiplexed connection: no other holder, released and reported ready since its last use, "
-            "never after an upgrade", "hand-offs of non-multiplexed connections that were used before"),
+            "never after an upgrade", "histories with >= 2 requests that contain issue, poll and dial-resolution operations"),
     "C03": ("no lost wake-up (a future that progresses after a Pending poll had been woken), nothing after cancel/completion, and "
             "after the closing procedure (drain_ops) every request incl. the probe has a connection or an error",
-            "cases with the closing procedure and at least one cancel or failed dial"),
+            "histories with >= 2 requests that contain issue, poll and dial-resolution operations"),
     "C04": ("no transport connect when a usable idle connection existed at Issue, none for an HTTP/2 request while another HTTP/2 "
             "attempt for the origin is in flight, none while the shared handle is checked out (D6), open connections only "
-            "discarded as surplus/expired", "cases with reuse opportunities (>= 2 requests to one origin)"),
+            "discarded as surplus/expired", "histories with >= 2 requests that contain issue, poll and dial-resolution operations"),
     "C05": ("a handed-out connection was not closed before it was acquired and (non-zero timeout) had not idled longer than it",
-            "cases with a ConnClose/Upgrade or a Tick"),
+            "histories with >= 2 requests that contain issue, poll and dial-resolution operations"),
     "C06": ("hand-off only of connections dialled for the same scheme+authority (ASCII case-insensitive); transport connect goes to "
-            "the request's own origin", "cases with >= 2 distinct origins"),
+            "the request's own origin", "histories with >= 2 requests that contain issue, poll and dial-resolution operations"),
     "C14": ("a handed-back open connection is never parked while a request waits for its origin; an offered connection is taken at "
             "the next poll; abandoned dials continue / are dropped according to continue_after_preemption",
-            "cases with a hand-back while another request is waiting, or an abandoned dial"),
-    "C15": ("idle list length <= max_idle_per_host in every snapshot (after every operation)", "cases with >= 2 releases to one origin"),
+            "histories with >= 2 requests that contain issue, poll and dial-resolution operations"),
+    "C15": ("idle list length <= max_idle_per_host in every snapshot (after every operation)", "histories with >= 2 requests that contain issue, poll and dial-resolution operations"),
 }
 WHICH = {"C02": 2, "C03": 3, "C04": 4, "C05": 5, "C06": 6, "C14": 14, "C15": 15}
 
